@@ -728,7 +728,7 @@ func (s *sys) dump(res string, best int, bl string) string {
 		hd := n.Ntfn.Header()
 		switch x := n.Ntfn.(type) {
 		case *blockntfns.Connected:
-			fmt.Fprintf(&b, "C:%d:%d:%d", s.idOf(&hd), x.Height(), n.FilterTipAtRecv)
+			fmt.Fprintf(&b, "C:%d:%d:%d:%d", s.idOf(&hd), x.Height(), n.FilterTipAtRecv, n.MemFilterTipAtRecv)
 		case *blockntfns.Disconnected:
 			tip := x.ChainTip()
 			fmt.Fprintf(&b, "D:%d:%d:%d", s.idOf(&hd), x.Height(), s.idOf(&tip))
@@ -1003,6 +1003,25 @@ func runCase(t *tr.W, rng *rand.Rand, nev int, script string) {
 			fhh := filterHash(s.stored[h])
 			msg.FilterHashes = append(msg.FilterHashes, &fhh)
 		}
+		// a subscriber that registers while the batch is being announced: when the k-th event of
+		// the batch arrives at the sink, ask for the backlog from some committed height
+		pk, ph := 0, 0
+		if n := len(msg.FilterHashes); bad == 0 && rng.Intn(2) == 0 {
+			pk = 1 + rng.Intn(n)
+			if n > 1 && rng.Intn(3) > 0 {
+				pk = 1 + rng.Intn(n-1) // not the last one: the handler is then still inside the batch
+			}
+			ph = 1 + rng.Intn(max(s.ftip, 1))
+			if ph > s.ftip {
+				ph = s.ftip
+			}
+			if ph == 0 {
+				pk = 0
+			} else {
+				s.bm.ArmProbe(pk, uint32(ph))
+				t.Hit("ev.cfwrite.probe")
+			}
+		}
 		res := "ok"
 		r := guard(func() {
 			if _, _, err := s.bm.WriteCFHeaders(msg); err != nil {
@@ -1012,7 +1031,23 @@ func runCase(t *tr.W, rng *rand.Rand, nev int, script string) {
 		if r != "ok" {
 			res = r
 		}
-		t.Op(fmt.Sprintf("cfwrite %d %d %d", s.stored[stop].id, len(msg.FilterHashes), bad), s.dump(res, 0, "[]"))
+		probe := ""
+		if pr := s.bm.TakeProbe(); pr != nil && pk > 0 {
+			switch {
+			case !pr.Fired:
+				probe = " pres none pbest 0 pbl []"
+			case pr.Err != nil:
+				probe = " pres err pbest 0 pbl []"
+			default:
+				var ss []string
+				for _, n := range pr.Ntfns {
+					hd := n.Header()
+					ss = append(ss, fmt.Sprintf("%d:%d", s.idOf(&hd), n.Height()))
+				}
+				probe = fmt.Sprintf(" pres ok pbest %d pbl [%s]", pr.Best, strings.Join(ss, " "))
+			}
+		}
+		t.Op(fmt.Sprintf("cfwrite %d %d %d %d %d", s.stored[stop].id, len(msg.FilterHashes), bad, pk, ph), s.dump(res, 0, "[]")+probe)
 	}
 	backlog := func() {
 		t.Hit("ev.backlog")
